@@ -166,6 +166,72 @@ def run_models(drv, tier, seed, ev) -> tuple[dict, list]:
     return ctx, violations
 
 
+def _corrupt(trace: dict, kind: str, rnd) -> dict | None:
+    """one corrupted copy of an accepted trace: a dropped line, two swapped lines, a changed field"""
+    import copy
+    tr = copy.deepcopy(trace)
+    evs = tr.get('ev', [])
+    if len(evs) < 3:
+        return None
+    if kind == 'drop':
+        del evs[rnd.randrange(len(evs) - 1)]
+        return tr
+    if kind == 'swap':
+        cand = [i for i in range(len(evs) - 1) if evs[i] != evs[i + 1]]
+        if not cand:
+            return None
+        i = rnd.choice(cand)
+        evs[i], evs[i + 1] = evs[i + 1], evs[i]
+        return tr
+    # change one integer / boolean field of one line
+    order = list(range(len(evs)))
+    rnd.shuffle(order)
+    for i in order:
+        keys = [k for k, v in evs[i].items() if isinstance(v, (bool, int)) and k not in ('t', 'lt')]
+        if keys:
+            k = rnd.choice(sorted(keys))
+            v = evs[i][k]
+            evs[i][k] = (not v) if isinstance(v, bool) else v + 1
+            return tr
+    return None
+
+
+def corruption_selftest(drv, traces, verdicts, groups, seed) -> dict:
+    """
+    Demonstrate that the trace specifications constrain the recorded executions: corrupted
+    copies of accepted traces must be rejected (DESIGN.md section 8).  Reported in the
+    evidence file; a specification that accepts every corruption is a machinery failure.
+    """
+    import random as _random
+    rnd = _random.Random(seed)
+    report = {}
+    for spec_name, idxs in groups.items():
+        good = [i for i in idxs if verdicts[i] is not None and verdicts[i].accepted and len(traces[i].get('ev', [])) >= 3]
+        if not good:
+            continue
+        sample = rnd.sample(good, min(8, len(good)))
+        bad, kinds = [], []
+        for i in sample:
+            for kind in ('drop', 'swap', 'field'):
+                c = _corrupt(traces[i], kind, rnd)
+                if c is not None:
+                    bad.append(c)
+                    kinds.append(kind)
+        if not bad:
+            continue
+        vs, _ = tlc.validate_traces(spec_name, bad, consts=getattr(drv, 'TRACE_CONSTS', ''), shards=1,
+                                    deque=getattr(drv, 'DEQUE', False))
+        rej = {k: [0, 0] for k in ('drop', 'swap', 'field')}
+        for k, v in zip(kinds, vs):
+            rej[k][1] += 1
+            if not v.accepted:
+                rej[k][0] += 1
+        report[spec_name] = {k: f'{a}/{b} rejected' for k, (a, b) in rej.items()}
+        if sum(a for a, _ in rej.values()) == 0:
+            raise MachineryError(f'corruption self-test: {spec_name} accepted all {len(bad)} corrupted traces')
+    return report
+
+
 def check(prop: str, tier: str, seed: int, replay: str | None = None) -> int:
     t0 = time.time()
     drv = importlib.import_module(DRIVERS[prop])
@@ -248,6 +314,7 @@ def check(prop: str, tier: str, seed: int, replay: str | None = None) -> int:
                 'cmd': tstats['cmd']})
             ev['coverage']['states'] += tstats['distinct']
             ev['coverage']['transitions'] += tstats['generated']
+        ev['coverage']['binding_selftest'] = corruption_selftest(drv, traces, verdicts, groups, seed)
         seen = set()
         nontriv = 0
         accepted = 0
